@@ -310,6 +310,22 @@ def gen_layout(rng, names, rk, forced_rows=None):
     return {"cols": cols, "rows": rows, "rk": list(rk), "ctk": ctk, "strict": True}
 
 
+def relabel(rng, a):
+    """the same control table with its value-cell names moved to other cells (same columns, same keys): reading blocks written
+    for `a` through this specification re-labels the values"""
+    ck = list(a["ctk"])
+    pos = [(i, j) for i in range(len(a["rows"])) for j, c in enumerate(a["cols"]) if c not in ck]
+    if len(pos) < 2:
+        return None
+    names = [a["rows"][i][j] for i, j in pos]
+    k = rng.randrange(1, len(names))
+    names = names[k:] + names[:k]
+    b = {"cols": list(a["cols"]), "rows": [list(r) for r in a["rows"]], "rk": list(a["rk"]), "ctk": list(a["ctk"]), "strict": True}
+    for (i, j), n in zip(pos, names):
+        b["rows"][i][j] = n
+    return b
+
+
 def layout_parts(a):
     """(ck names as listed, vc names in table order, [(key tuple, {vc: cell name})])"""
     ck = list(a["ctk"])
@@ -807,6 +823,11 @@ def run(chk):
         mk = lambda i, o: {"bin": lay[i], "bout": lay[o], "strict": True}
         datas = {k: form(w, lay[k], rng, extra=True) for k in lay}
         built, fwd = {}, {}
+        B2 = relabel(rng, B)
+        if B2 is not None:
+            # maps that meet in B-blocks but read them through a re-labelled specification: compose() must follow the labels
+            lay["B2"] = B2
+            pairs += [(("B2", "A"), ("A", "B")), (("B2", "rows"), ("rows", "B"))]
         for (i, o) in shapes:
             m = mk(i, o)
             data = datas[i]
@@ -882,7 +903,12 @@ def run(chk):
             add_pl_term(m, data, fwd[(i, o, "polars")], True)
         # (c) composites: first m2, then m1   (m1.compose(m2), m2 >> m1)
         for (p1, p2) in (pairs if tier == "thorough" else rng.sample(pairs, 4)):
-            if p1 not in built or p2 not in built:
+            if p1 not in built:
+                try:
+                    built[p1] = build_map(mk(*p1))
+                except Exception:
+                    continue
+            if p2 not in built:
                 continue
             m1, m2 = mk(*p1), mk(*p2)
             mp1, mp2 = built[p1], built[p2]
@@ -897,7 +923,7 @@ def run(chk):
                 c, cst = None, "raises"
             o = "OCRaise" if cst == "raises" else "OCNone" if cst == "none" else "(OCMap %s)" % comap(c)
             add_term("KCompose %s %s %s %s" % (cstr(sfx), cmapargs(m1), cmapargs(m2), o), {"map1": m1, "map2": m2, "what": "compose", "observed": o[:40], "data": jt(data), "via": via})
-            if sfx == "":
+            if sfx == "" and p1[0] != "B2":
                 # the hypothesis of the C17_compose_sound_partial theorems, evaluated inside Coq on this composite
                 add_term("KComposeOk %s %s %s" % (cstr(sfx), cmapargs(m1), cmapargs(m2)),
                          {"map1": m1, "map2": m2, "what": "composite_ok (input side of the first map, layout of the second map's output side)", "data": jt(data), "via": via})
